@@ -46,6 +46,12 @@ impl<V> Node<V> {
         let mut max_prefix_item = None;
 
         for i in 0..self.children.len() {
+            // a child holding exactly this pattern receives the value, even when its prefix is not longer than the node's
+            if self.children[i].regex() == regex {
+                max_prefix_item = Some(i);
+                break;
+            }
+
             let prefix_size = common_prefix_char_size(regex, self.children[i].regex());
 
             if prefix_size > max_prefix_size {
